@@ -1,4 +1,5 @@
 CONSTANTS MaxX = 2
 WithReqClose = TRUE
+CoreOnly = FALSE
 SPECIFICATION MCSpec
-INVARIANTS TypeOK NoOverread CleanReuse NoReuseAfterClose OneReplyPerRequest FinalIndependent ClosedNotUsable
+INVARIANTS TypeOK NoOverread CleanReuse NoReuseAfterClose OneReplyPerRequest FinalIndependent ClosedNotUsable DirtyIsGivenUp UntilCloseSawEof
